@@ -73,6 +73,10 @@ fn exec(sc: &Scenario) -> Report {
                     pos = op.n0();
                     call(|| pb.set_position(op.n0()))
                 }
+                "reset" => {
+                    pos = 0;
+                    call(|| pb.reset())
+                }
                 "println" => call(|| pb.println(format!("log{i}"))),
                 "force_draw" => call(|| pb.force_draw()),
                 "mp_println" => call(|| {
@@ -88,7 +92,7 @@ fn exec(sc: &Scenario) -> Report {
             }
             let painted = term.flushes() > f0;
             let forced = matches!(op.k.as_str(), "println" | "force_draw" | "mp_println");
-            let direct = matches!(op.k.as_str(), "tick" | "set_message");
+            let direct = matches!(op.k.as_str(), "tick" | "set_message" | "reset");
             let positional = matches!(op.k.as_str(), "inc" | "set_position");
             if forced && !painted && !(op.k == "mp_println" && mp.is_none()) {
                 r.violate("C05.forced_paint", format!("{at}: a forced request painted nothing"));
@@ -157,10 +161,12 @@ fn exec(sc: &Scenario) -> Report {
             }
             if positional && hz == 0 && !painted {
                 // (4b) the position bucket admits a request >= 1 ms after the last admitted one
+                // (…and >= 1 ms after the last painted frame of any kind: reset() repaints and
+                // restarts the bucket's clock, which is within the law)
                 let starved = match position_frames.last() {
                     None => true,
                     Some(lp) => now - lp >= 1_000_000,
-                };
+                } && last_paint.map_or(true, |lp| now - lp >= 1_000_000);
                 // other (direct) frames do not feed the position bucket; only compare with position frames
                 if starved {
                     r.violate(
@@ -226,7 +232,7 @@ impl Check for C05 {
         "C05"
     }
     fn rule_text(&self) -> String {
-        "50..400 requests (tick, set_message = direct ordinary; inc/set_position = through the position bucket; println/force_draw/mp.println = forced, excluded from the law) on a target with refresh rate R uniform in 1..=255 or without limiter, standalone or as a MultiProgress target; arrival gaps from a mixture: 0, 1 ns, I±{0,1 ns,1 µs}, k*I±..., 1 ms±1 ns, sub-interval uniform, seconds, hours (I = 1e9/R ns). Laws checked on the recorded paint timestamps: (1) every window of ordinary frames satisfies count <= 20 + R*T + 1 (integer arithmetic), (2) a direct ordinary request arriving >= ceil(1e9/R) ns after the last painted frame is painted, (3) after every position update the last painted frame is younger than ceil(1e9/R) ns + 1 ms, (4) on an unlimited target admitted position updates obey burst 10 / 1 per ms and a position update >= 1 ms after the last admitted one is admitted, (5) every painted frame shows the latest position and message. Non-trivial: >= 3 frames caused by ordinary requests. Distinct = distinct scenario hash.".into()
+        "50..400 requests (tick, set_message, reset = direct ordinary; inc/set_position = through the position bucket; println/force_draw/mp.println = forced, excluded from the law) on a target with refresh rate R uniform in 1..=255 or without limiter, standalone or as a MultiProgress target; arrival gaps from a mixture: 0, 1 ns, I±{0,1 ns,1 µs}, k*I±..., 1 ms±1 ns, sub-interval uniform, seconds, hours (I = 1e9/R ns). Laws checked on the recorded paint timestamps: (1) every window of ordinary frames satisfies count <= 20 + R*T + 1 (integer arithmetic), (2) a direct ordinary request arriving >= ceil(1e9/R) ns after the last painted frame is painted, (3) after every position update the last painted frame is younger than ceil(1e9/R) ns + 1 ms, (4) on an unlimited target admitted position updates obey burst 10 / 1 per ms and a position update >= 1 ms after the last admitted one is admitted, (5) every painted frame shows the latest position and message. Non-trivial: >= 3 frames caused by ordinary requests. Distinct = distinct scenario hash.".into()
     }
     fn assumptions(&self) -> Vec<String> {
         vec!["time is integral nanoseconds on the virtual clock; no steady ticker is installed".into()]
@@ -272,7 +278,7 @@ impl Check for C05 {
             rng.range(0, 4) as u32,
             rng.range(0, 2) as u32,
         ];
-        let w_op: [u32; 7] = [rng.range(1, 8) as u32, rng.range(0, 5) as u32, rng.range(0, 8) as u32, rng.range(0, 3) as u32, rng.range(0, 1) as u32, rng.range(0, 1) as u32, rng.range(0, 1) as u32];
+        let w_op: [u32; 8] = [rng.range(1, 8) as u32, rng.range(0, 5) as u32, rng.range(0, 8) as u32, rng.range(0, 3) as u32, rng.range(0, 1) as u32, rng.range(0, 1) as u32, rng.range(0, 1) as u32, rng.range(0, 2) as u32];
         let mut ops = vec![];
         for _ in 0..n {
             let jit = *rng.pick(&[0i64, 0, 1, -1, 1000, -1000]);
@@ -280,7 +286,7 @@ impl Check for C05 {
                 0 => 0,
                 1 => 1,
                 2 => (i as i64 + jit).max(0) as u64,
-                3 => ((rng.range(2, 5) * i) as i64 + jit).max(0) as u64,
+                3 => ((rng.range(2, 25) * i) as i64 + jit + if rng.chance(1, 3) { rng.below(i.max(2)) as i64 } else { 0 }).max(0) as u64,
                 4 => (1_000_000i64 + *rng.pick(&[0i64, 1, -1])) as u64,
                 5 => rng.below(i.max(2)),
                 6 => rng.range(1, 5) * 1_000_000_000,
@@ -298,7 +304,8 @@ impl Check for C05 {
                 3 => Op::new("set_position").n(rng.below(1000)),
                 4 => Op::new("println"),
                 5 => Op::new("force_draw"),
-                _ => Op::new("mp_println"),
+                6 => Op::new("mp_println"),
+                _ => Op::new("reset"),
             });
         }
         sc.threads = vec![ops];
